@@ -1,17 +1,10 @@
 #!/bin/sh
 # Builds every check's test binary once (offline) so that the first quick run only relinks.
-set -e
-cd "$(dirname "$0")/harness"
+cd "$(dirname "$0")/harness" || exit 1
 export GOFLAGS=-mod=mod GOPROXY=off GOTOOLCHAIN=auto
 unset GOSUMDB
 mkdir -p ../.bin
-pkgs=$(ls -d c[0-9][0-9] 2>/dev/null)
-# compile shared dependencies first, then the per-property binaries in parallel
-go build -tags verif ./... 
-for p in $pkgs; do
-  ( go test -c -tags verif -o ../.bin/$p.test ./$p || echo "setup: build of $p failed" ) &
-  # at most 6 concurrent links
-  while [ "$(jobs -r | wc -l)" -ge 6 ]; do sleep 0.2; done
-done
-wait
+go build -tags verif ./... || echo "setup: go build reported errors (individual checks will report them)"
+ls -d c[0-9][0-9] 2>/dev/null | xargs -P 6 -I{} sh -c 'go test -c -tags verif -o ../.bin/{}.test ./{} || echo "setup: build of {} failed"'
 echo "setup done"
+exit 0
